@@ -156,7 +156,8 @@ func SingleTableSelect(rt *rapid.T, t *model.Table) Select {
 		q.OrderBy = append(q.OrderBy, k)
 	}
 	n := len(t.Rows)
-	cands := []int{0, 1, 2, n - 1, n, n + 1, n / 2, 100}
+	// (the 'no limit' idiom LIMIT <largest integer> OFFSET m included)
+	cands := []int{0, 1, 2, n - 1, n, n + 1, n / 2, 100, 1, 2, n / 2, 9223372036854775807, 9223372036854775806, 2147483648, 4294967296}
 	pick := func(label string) *int {
 		v := rapid.SampledFrom(cands).Draw(rt, label)
 		if v < 0 {
